@@ -112,6 +112,7 @@ pub fn run(rep: &'static Report) {
     let seed = rep.seed;
     kra::note(rep);
     rep.set_rule("E-GRID vs REF: keys x passwords x salts (lock bytes == documented format, lock/unlock round trip in both directions between Rust and REF), all ordered password pairs, every single-bit change of the 84-byte blob, every string length 0..130 and every single-character substitution from a class alphabet. distinct non-trivial = distinct (key, password, salt) / (password pair) / (bit) / (string) points");
+    rep.rule_add("Password channels: REF-locked keys, 8 passwords with blanks at their ends and their near misses x {environment, controlling terminal, stdin terminal} through key extract-pub.");
     rep.rule_add("CLI: extract-pub pairs over a UTF-8 and a byte-password alphabet, 673 bit flips, change-pass to every word.");
     rep.assume("key/salt values from seed-derived alphabets plus all-zero and all-one keys; one scrypt(32768,8,1) per point bounds the grid");
     let ids = idents(seed);
@@ -165,6 +166,49 @@ pub fn run(rep: &'static Report) {
             flip_case(rep, &keys[bi], &pw, &blob, bit);
             rep.nontrivial(format!("flip-{}-{}", bi, bit).as_bytes());
         });
+    }
+    // changes to two bytes of the tag at once, the same mask on both (an opener that folds tag bytes together before
+    // comparing refuses every single-bit change and accepts these), through the real unlock; and, one layer down, the
+    // AEAD opener under the blob's own scrypt key with every tag at Hamming distance two
+    if kra::AVAILABLE {
+        let pw = b"flip pw".to_vec();
+        let blob = r::lock_key(&keys[0], &pw, &salts[0]);
+        let mut pairs = vec![];
+        for i in 68..84usize {
+            for j in i + 1..84 {
+                pairs.push((i, j));
+            }
+        }
+        pairs.par_iter().for_each(|&(i, j)| {
+            rep.eval(1);
+            rep.nontrivial(format!("flip-pair-{}-{}", i, j).as_bytes());
+            let mut b = blob.clone();
+            b[i] ^= 0x01;
+            b[j] ^= 0x01;
+            let case = json!({"kind":"flip-pair","i":i,"j":j});
+            match rust_unlock(&r::b64(&b), &pw) {
+                Ok(None) => {}
+                Ok(Some(_)) => rep.violation("tamper/accepted-tag", case, format!("locked key with the lowest bits of tag bytes {} and {} both flipped still unlocks", i - 68, j - 68)),
+                Err(m) => rep.violation("tamper/panic", case, format!("panic: {}", m)),
+            }
+        });
+        let k = r::pass_key(&pw, &salts[0]);
+        let tag: [u8; 16] = blob[68..84].try_into().unwrap();
+        let vars = crate::c19::tag_variants(&tag);
+        let nv = vars.len();
+        vars.par_iter().for_each(|(what, t)| {
+            rep.eval(1);
+            let mut c = blob[36..84].to_vec();
+            c[32..].copy_from_slice(t);
+            match guarded(|| kestrel_crypto::chapoly_decrypt_ietf(&k, &[0u8; 12], &c, &r::SK_MAGIC).is_ok()) {
+                Ok(false) => {}
+                Ok(true) => rep.violation("tamper/accepted-tag", json!({"kind":"flip-pair","what":what}), format!("the AEAD opener under the locked key's scrypt key accepts the sealed private key when its {}", what)),
+                Err(m) => rep.violation("tamper/panic", json!({"kind":"flip-pair","what":what}), format!("panic: {}", m)),
+            }
+        });
+        rep.nontrivial(b"flip-tag-variants");
+        rep.extra("tag_byte_pairs_through_unlock", json!(pairs.len()));
+        rep.extra("tag_variants_at_the_aead_layer", json!(nv));
     }
     rep.extra("blob_bit_flips", json!(nblobs * 672));
     rep.sample(json!({"kind":"flip","bit":24,"meaning":"lowest bit of the version byte 0x30","expect":"unlock fails"}));
@@ -376,15 +420,25 @@ pub fn run(rep: &'static Report) {
         });
         rep.sample(json!({"kind":"cli-extract","locked_under":"a\\n","KESTREL_PASSWORD":"a","expect":"exit 1"}));
     }
+    crate::chan::unlock(rep, "C15");
     rep.set_exhaustive(true);
 }
 
 pub fn replay(rep: &'static Report, case: &Value) {
+    if case["kind"] == "chan" {
+        println!("  re-running the password-channel part");
+        crate::chan::unlock(rep, "C15");
+        return;
+    }
     let g = |k: &str| unhx(case[k].as_str().unwrap_or(""));
     let a32 = |k: &str| -> [u8; 32] { g(k).try_into().unwrap_or([0; 32]) };
     match case["kind"].as_str().unwrap_or("") {
         "lock" => lock_case(rep, &a32("sk"), "replay", &g("pw"), &a32("salt")),
         "other-pw" => other_pw_case(rep, &a32("sk"), case["wn"].as_str().unwrap(), &g("w"), case["w2n"].as_str().unwrap(), &g("w2"), case["locked"].as_str().unwrap()),
+        "flip-pair" => {
+            println!("  re-running C15 (paired tag changes are part of it)");
+            run(rep);
+        }
         "flip" => flip_case(rep, &a32("sk"), &g("pw"), &g("blob"), case["bit"].as_u64().unwrap() as usize),
         "string" => string_case(rep, case["s"].as_str().unwrap(), &g("pw"), case["orig"].as_str().unwrap(), &a32("sk")),
         "cli-bytes" => {
